@@ -38,7 +38,7 @@ RULE_PROG = "K layers: generated programs / sessions (sizes, statement mix from 
 
 PROPS = {
     "C01": _p(
-        "Theorem compileExpr_correct: for every pure expression tree (literals, scalars, all unary/binary operators, 22 one-argument built-ins) the generated code is its postfix form and, from ANY machine state, running it pushes exactly the value the documented evaluation gives, or stops at the first failing operation with the variables untouched. Floor theorems on the model: WHILE/WEND pairing is bracket matching, every resolved reference is patched to the address of its LINE's symbol, ON selects 1-based / falls through / rejects negatives, IfNot branches on zero, NEXT compares by the sign of the step. The whole-program simulation is not proved; it is covered by (K) op-for-op equality of the compiled program and lockstep of the VM state with the real interpreter, and by (F) a statement-by-statement reference interpreter over structured programs (FOR/WHILE/IF/GOSUB/ON/early exits) whose predicted transcript must equal the real one.",
+        "Theorems structured_correct / block_rules / for_integer / structured_linked / one_line_program_correct (Spec/Struct, Lemmas/Struct*): a compositional calculus `Implements code f` (code as a function of its start address implements a transformer of the variable store, stack and every other component unchanged, errors exact) with rules for LET, ':', IF-THEN(-ELSE), WHILE-WEND (any iteration bound) and FOR-NEXT (start assigned first, limit then step evaluated once, body at least once, NEXT adds the step and compares by the step's sign, Integer overflow = OVERFLOW); a structured program of these constructors is implemented by its code for every fuel-bounded run of the specification semantics exec; the generator's fragments and the LINKER produce exactly that code when the statement is a whole line (nested IFs re-based inside loop bodies), so a one-line program runs as exec says. Not covered: loops spread over several numbered lines (run rules apply wherever the code shape is established), GOTO in/out of blocks, arrays, NEXT with a list. Theorem compileExpr_correct: for every pure expression tree (literals, scalars, all unary/binary operators, 22 one-argument built-ins) the generated code is its postfix form and, from ANY machine state, running it pushes exactly the value the documented evaluation gives, or stops at the first failing operation with the variables untouched. Floor theorems on the model: WHILE/WEND pairing is bracket matching, every resolved reference is patched to the address of its LINE's symbol, ON selects 1-based / falls through / rejects negatives, IfNot branches on zero, NEXT compares by the sign of the step. The whole-program simulation is not proved; it is covered by (K) op-for-op equality of the compiled program and lockstep of the VM state with the real interpreter, and by (F) a statement-by-statement reference interpreter over structured programs (FOR/WHILE/IF/GOSUB/ON/early exits) whose predicted transcript must equal the real one.",
         "Partial: per-mechanism lemmas proved, program_sim is exploration (correspondence + reference interpreter). Trusted: Lean kernel, the model's tie to /repo (differential), the reference interpreter in harness/src/find2.rs.",
         ["compile", "ses", "find-c01"], RULE_PROG, partial="whole-program simulation theorem not proved (DESIGN section 8 C01 target)"),
     "C02": _p(
